@@ -5,6 +5,8 @@
                          learns how many calls of each kind a run makes).
    VERIF_IO_FAIL=<op>:<k>:<errno>
                          the k-th (1-based) call of op fails with errno (the real call is not made).
+                         As the kernel does, a write failing with EPIPE / EFBIG also generates SIGPIPE /
+                         SIGXFSZ for the calling thread.
    VERIF_IO_SIG=<op>:<k>:<signo>[:after]
                          signal signo is sent to the process right before (or after) the k-th call of op.
    ops: read write close fchown fchmod futimens unlink open.  Counting is global over all threads
@@ -147,7 +149,12 @@ ssize_t write(int fd, const void *buf, size_t n)
     if (k > 0) { tgt[k] = 0; if (strcmp(tgt, getenv("VERIF_TRACE")) == 0) return real_write(fd, buf, n); }
   }
   r = enter(O_WRITE, fd, NULL);
-  if (r & 1) { errno = fail_errno; return -1; }
+  if (r & 1) {
+    if (fail_errno == EPIPE) pthread_kill(pthread_self(), SIGPIPE);
+    if (fail_errno == EFBIG) pthread_kill(pthread_self(), SIGXFSZ);
+    errno = fail_errno;
+    return -1;
+  }
   rv = real_write(fd, buf, (fd == 1 && seed >= 0) ? part(n) : n);
   if (r & 4) kill(getpid(), sig_no);
   return rv;
